@@ -129,8 +129,10 @@ class IffChunk(object):
     def read(self) -> bytes:
         """Read the chunks data"""
 
+        # the reported size can be far outside of the file's actual size
+        size = min(self.data_size, self._get_actual_data_size())
         self._fileobj.seek(self.data_offset)
-        return self._fileobj.read(self.data_size)
+        return self._fileobj.read(size)
 
     def write(self, data: bytes) -> None:
         """Write the chunk data"""
@@ -242,7 +244,9 @@ class IffContainerChunkMixin():
         """
         if not self.__subchunks:
             next_offset = self.data_offset + self.__name_size
-            while next_offset < self.offset + self.size:
+            # no subchunk can start beyond the end of the file
+            end_offset = self.data_offset + self._get_actual_data_size()
+            while next_offset < end_offset:
                 self._fileobj.seek(next_offset)
                 try:
                     chunk = self.parse_next_subchunk()
